@@ -179,6 +179,7 @@ class FormatterFactory:
             func = self.factory
         params = inspect.signature(func).parameters
         self._has_style_param = 'style' in params
+        self._has_validate_param = 'validate' in params
 
         # Check that the format specified complies with the style; we
         # just want the format call to not fall over.  If it does, the
@@ -211,8 +212,16 @@ class FormatterFactory:
         stylist = self.stylist
         if self._has_style_param:
             if stylist.logging_style:
+                # The format was checked when the section was loaded;
+                # logging's own validation additionally refuses formats
+                # without any field ("hello", "100%%"), which would only
+                # show when the handler is created.
+                kwargs = dict()
+                if self._has_validate_param:
+                    kwargs['validate'] = False
                 formatter = self.factory(self.format, self.dateformat,
-                                         style=stylist.logging_style)
+                                         style=stylist.logging_style,
+                                         **kwargs)
             else:
                 # A formatter class that supports style, but our style is
                 # non-standard, so we reach under the covers a bit.
